@@ -45,6 +45,14 @@ def build(S, spec, complex_=None):
     x = cls(indices=indices, charge=spec["charge"], blocks=blocks, **kw)
     for groups in spec.get("prefuse", ()):
         x = x.fuse(*groups)
+    for k in spec.get("drop_after_k", ()):
+        # fused-then-sparsified: remove the k-th stored sector (sorted order) after fusing
+        keys = sorted(x.blocks, key=repr)
+        if len(keys) > 1:
+            sector = keys[k % len(keys)]
+            x.blocks.pop(sector, None)
+            if spec.get("fermionic"):
+                x.phases.pop(sector, None)
     for sector in spec.get("drop_after", ()):
         x.blocks.pop(sector, None)
         if spec.get("fermionic"):
